@@ -10,7 +10,7 @@ import (
 
 func init() { suites["export"] = suiteExport }
 
-var avroTypes = []string{"tinyint(4)", "tinyint(1)", "smallint(6)", "int(11)", "bigint(20)", "decimal(10,2)", "decimal(12,4)", "decimal(5,3)", "float", "double", "date", "datetime",
+var avroTypes = []string{"tinyint(4)", "tinyint(1)", "smallint(6)", "int(11)", "bigint(20)", "decimal(10,2)", "decimal(12,4)", "decimal(5,3)", "decimal(12,0)", "decimal(20,0)", "float", "double", "date", "datetime",
 	"timestamp", "json", "enum('a','b')", "char(3)", "varchar(64)", "text", "longtext"}
 
 func suiteExport(c *ctx) {
